@@ -147,9 +147,62 @@ fn body(p: &P) -> Result<(), String> {
     Ok(())
 }
 
+/// Two-way bootstrap: the client connects to server A, then creates its own server B and sends
+/// B's name as its first message; A's owner accepts, connects to B and sends; the client accepts
+/// on B. Two rendezvous are alive at once and each side's first message depends on the other one.
+fn two_way_body() -> Result<(), String> {
+    let root = tmp_root();
+    interpose::harness(|| {
+        let _ = std::fs::remove_dir_all(&root);
+        let _ = std::fs::create_dir_all(&root);
+    });
+    std::env::set_var("TMPDIR", &root);
+    let (server_a, name_a) = IpcOneShotServer::<String>::new().map_err(|e| format!("server A new: {}", e))?;
+    let client = std::thread::spawn(move || -> Result<(), String> {
+        e1::inproc_point();
+        let to_a = IpcSender::<String>::connect(name_a).map_err(|e| format!("connect to A failed: {}", e))?;
+        e1::inproc_point();
+        let (server_b, name_b) = IpcOneShotServer::<u32>::new().map_err(|e| format!("server B new: {}", e))?;
+        e1::inproc_point();
+        to_a.send(name_b).map_err(|e| format!("first message to A failed: {}", e))?;
+        e1::inproc_point();
+        let (rx_b, first) = server_b.accept().map_err(|e| format!("accept on B failed: {}", e))?;
+        if first != 1 {
+            return Err(format!("B's first message is {}", first));
+        }
+        match rx_b.recv() {
+            Ok(2) => Ok(()),
+            other => Err(format!("B's second message: {:?}", other)),
+        }
+    });
+    e1::inproc_point();
+    let (rx_a, name_b) = server_a.accept().map_err(|e| format!("accept on A failed: {}", e))?;
+    e1::inproc_point();
+    let to_b = IpcSender::<u32>::connect(name_b).map_err(|e| format!("connect to B failed: {}", e))?;
+    to_b.send(1).map_err(|e| format!("first message to B failed: {}", e))?;
+    to_b.send(2).map_err(|e| format!("second message to B failed: {}", e))?;
+    client.join().map_err(|_| "client panicked".to_string())??;
+    match rx_a.recv() {
+        Err(IpcError::Disconnected) => {},
+        other => return Err(format!("after the client's only message: {:?} instead of disconnected", other.map(|_| "a message"))),
+    }
+    after_accept_clean(&root, 0)?;
+    interpose::harness(|| {
+        let _ = std::fs::remove_dir_all(&root);
+    });
+    obs("ok");
+    Ok(())
+}
+
 pub fn scenarios(tier: Tier) -> Vec<Scenario> {
     use Sz::*;
     let mut v = Vec::new();
+    v.push(Scenario::new(
+        "two-way bootstrap (the client's first message names its own server)",
+        Cfg { sched: true, fake_sndbuf: Some(4608), yield_alts: cfg!(feature = "inproc"), ..Default::default() },
+        if tier.is_quick() { 2 } else { 3 },
+        two_way_body,
+    ));
     let mut add = |p: P, bound: u32| {
         let name = format!("{:?}", p);
         let cfg = Cfg {
@@ -400,7 +453,7 @@ fn run_all(rep: &mut Report, tier: Tier) {
     rep.set("evaluations", json!(tot.execs + n));
     rep.set("distinct_nontrivial", json!(tot.with_switch + n));
     rep.set("deviation_bound", json!(tot.max_bound));
-    rep.set("rule", json!("E1: one evaluation = one schedule (<= bound deviations) of a server task (new, accept) and a client task (connect, 1-3 messages of mixed size, optionally one with sender+region, drop): accept-first, connect-first, sends before accept and client finished before accept all arise as schedules; with a fake or a kernel-enforced 4608-byte send buffer (the client then blocks until the server drains). E2: forked client and separately exec'ed client that exit before accept with 1..5 (20) messages queued, 1..50 (200) servers alive at once (names distinct; accepted or dropped), server dropped unused with and without a connected client; after accept / drop the temp root must be empty and no listening descriptor open"));
+    rep.set("rule", json!("E1: one evaluation = one schedule (<= bound deviations) of a server task (new, accept) and a client task (connect, 1-3 messages of mixed size, optionally one with sender+region, drop): accept-first, connect-first, sends before accept and client finished before accept all arise as schedules; a two-way bootstrap (the client's first message names a second server it created after connecting); with a fake or a kernel-enforced 4608-byte send buffer (the client then blocks until the server drains). E2: forked client and separately exec'ed client that exit before accept with 1..5 (20) messages queued, 1..50 (200) servers alive at once (names distinct; accepted or dropped), server dropped unused with and without a connected client; after accept / drop the temp root must be empty and no listening descriptor open"));
     rep.assume("the spawned (exec'ed) client is the harness binary itself in a client mode");
 }
 
